@@ -28,6 +28,14 @@ type pScript struct {
 	MaxRetry int             `json:"maxretry"`
 	Proto    string          `json:"proto"`
 	Big      bool            `json:"big"`
+	// the sink stops reading before message At (all later messages are multi-kilobyte, so the producer soon blocks in the
+	// middle of one); when a hand-over no longer completes it Then "rst"s the connection (staying reachable) or "resume"s
+	// reading; Tail more messages follow
+	Stall *struct {
+		At   int    `json:"at"`
+		Then string `json:"then"`
+		Tail int    `json:"tail"`
+	} `json:"stall,omitempty"`
 }
 
 type pEvent struct {
@@ -73,6 +81,52 @@ type pSink struct {
 	closed   map[int]bool    // producer-side ports whose sink side we have closed
 	addr     string
 	proto    string
+	paused   bool     // the sink has stopped reading: what arrives is held back, as if still in the socket
+	held     [][]byte // per connection
+}
+
+// pause: from now on (under the lock that guards what was received) nothing is read
+func (s *pSink) pause() {
+	s.mu.Lock()
+	s.paused = true
+	s.mu.Unlock()
+}
+
+// resume: the sink reads on; what was held back arrives
+func (s *pSink) resume() {
+	s.mu.Lock()
+	s.paused = false
+	for i, h := range s.held {
+		if len(h) > 0 {
+			s.bufs[i].Write(h)
+			s.lines(s.bufs[i])
+			s.held[i] = nil
+		}
+	}
+	s.mu.Unlock()
+}
+
+// rst: the sink resets its connections without having read what was waiting, and keeps listening
+func (s *pSink) rst() {
+	s.mu.Lock()
+	for i, c := range s.conns {
+		if tc, ok := c.(*net.TCPConn); ok {
+			tc.SetLinger(0)
+		}
+		if ta, ok := c.RemoteAddr().(*net.TCPAddr); ok {
+			if s.closed == nil {
+				s.closed = map[int]bool{}
+			}
+			s.closed[ta.Port] = true
+		}
+		c.Close()
+		if i < len(s.held) {
+			s.held[i] = nil
+		}
+	}
+	s.conns = nil
+	s.paused = false
+	s.mu.Unlock()
 }
 
 // lines moves the complete lines of buf to arrivals (called with the lock held)
@@ -131,17 +185,32 @@ func (s *pSink) start() error {
 			s.mu.Lock()
 			s.conns = append(s.conns, c)
 			s.bufs = append(s.bufs, buf)
+			for len(s.held) < len(s.bufs) {
+				s.held = append(s.held, nil)
+			}
+			me := len(s.bufs) - 1
 			if ta, ok := c.RemoteAddr().(*net.TCPAddr); ok {
 				s.peers = append(s.peers, ta.Port)
 			}
 			s.mu.Unlock()
 			go func() {
-				b := make([]byte, 1<<16)
+				b := make([]byte, 1<<12)
 				for {
+					s.mu.Lock()
+					full := s.paused && len(s.held[me]) > 1<<14
+					s.mu.Unlock()
+					if full { // a sink that does not read: the rest stays in the socket buffers
+						time.Sleep(time.Millisecond)
+						continue
+					}
 					n, err := c.Read(b)
 					s.mu.Lock()
-					buf.Write(b[:n])
-					s.lines(buf)
+					if s.paused {
+						s.held[me] = append(s.held[me], b[:n]...)
+					} else {
+						buf.Write(b[:n])
+						s.lines(buf)
+					}
 					s.mu.Unlock()
 					if err != nil {
 						return
@@ -283,6 +352,10 @@ func pRun(sc pScript) (res pResult) {
 	}()
 	msgs := map[string]int{}
 	next := 0
+	if sc.Stall != nil {
+		pStall(sc, sink, rs, ch, done, settle, msgs, &res)
+		return
+	}
 	for k := 1; k <= sc.N; k++ {
 		for next < len(sc.Script) && int(sc.Script[next][1].(float64)) == k {
 			// everything handed over so far has been processed (the channel is unbuffered): the fault falls between messages
@@ -357,6 +430,115 @@ func pRun(sc pScript) (res pResult) {
 	sink.mu.Unlock()
 	res.Events = append(res.Events, pEvent{Ev: "end", Delivered: delivered})
 	return
+}
+
+// pStall: the sink stops reading, the producer runs into full socket buffers in the middle of a message, the sink resets
+// the connection (or reads on)
+func pStall(sc pScript, sink *pSink, rs *RawSocket, ch chan []byte, done chan struct{}, settle func(), msgs map[string]int, res *pResult) {
+	if tc, ok := rs.connection.(*net.TCPConn); ok {
+		tc.SetWriteBuffer(4096) // small buffers: a few multi-kilobyte messages fill them
+	}
+	var taken chan struct{}
+	hand := func(k int, big bool, wait time.Duration) bool {
+		m := pMessage(k, false)
+		if big {
+			m = append(m, []byte(strings.Repeat("0123456789%abcdef", 600))...)
+		}
+		msgs[string(m)] = k
+		select {
+		case ch <- m:
+			res.Events = append(res.Events, pEvent{Ev: "hand", M: k})
+			return true
+		case <-time.After(wait):
+			// not taken: keep offering in the background, tell when it is
+			taken = make(chan struct{})
+			go func(t chan struct{}) { ch <- m; close(t) }(taken)
+			return false
+		}
+	}
+	k := 1
+	for ; k < sc.Stall.At; k++ {
+		if !hand(k, false, 10*time.Second) {
+			res.Hung = true
+			return
+		}
+		time.Sleep(2 * pSlow * time.Millisecond)
+	}
+	time.Sleep(5 * pSlow * time.Millisecond) // what was written has been read
+	sink.pause()
+	res.Events = append(res.Events, pEvent{Ev: "stall"})
+	blocked := false
+	for ; k < sc.Stall.At+4000; k++ {
+		if !hand(k, true, 300*pSlow*time.Millisecond) {
+			blocked = true
+			break
+		}
+	}
+	if !blocked {
+		panic(pInfra("the producer never blocked on a sink that does not read"))
+	}
+	// message k is being offered in the background; message k-1 is the one the producer is stuck in
+	if sc.Stall.Then == "rst" {
+		sink.rst()
+		res.Events = append(res.Events, pEvent{Ev: "rst"})
+	} else {
+		sink.resume()
+		res.Events = append(res.Events, pEvent{Ev: "resume"})
+	}
+	// the background offer of message k is taken once the producer is through with message k-1
+	select {
+	case <-taken:
+	case <-time.After(10 * time.Second):
+		res.Hung = true
+		return
+	}
+	res.Events = append(res.Events, pEvent{Ev: "hand", M: k})
+	k++
+	time.Sleep(5 * pSlow * time.Millisecond)
+	settle()
+	for j := 0; j < sc.Stall.Tail; j++ {
+		if !hand(k, false, 10*time.Second) {
+			res.Hung = true
+			return
+		}
+		k++
+		time.Sleep(2 * pSlow * time.Millisecond)
+		settle()
+	}
+	close(ch)
+	select {
+	case <-done:
+	case <-time.After(10 * time.Second):
+		res.Hung = true
+		return
+	}
+	if rs.connection != nil {
+		rs.connection.Close()
+	}
+	time.Sleep(5 * pSlow * time.Millisecond)
+	sink.mu.Lock()
+	delivered := []int{}
+	for _, b := range sink.bufs {
+		if b.Len() > 0 {
+			res.Partial++
+		}
+	}
+	for _, line := range sink.arrivals {
+		if n, ok := msgs[string(line)]; ok {
+			delivered = append(delivered, n)
+		} else {
+			delivered = append(delivered, -1)
+			if len(res.Garbage) < 3 {
+				g := string(line)
+				if len(g) > 200 {
+					g = g[:200]
+				}
+				res.Garbage = append(res.Garbage, g)
+			}
+		}
+	}
+	sink.mu.Unlock()
+	res.Events = append(res.Events, pEvent{Ev: "end", Delivered: delivered})
 }
 
 func TestVerifProducerScripts(t *testing.T) {
